@@ -798,8 +798,8 @@ impl Property for P14 {
 
     fn random_runs(tier: Tier) -> u64 {
         match tier {
-            Tier::Quick => 400_000,
-            Tier::Thorough => 30_000_000,
+            Tier::Quick => 1_500_000,
+            Tier::Thorough => 60_000_000,
         }
     }
 
